@@ -144,7 +144,7 @@ fn step_async_batch(which: u8) {
   kani::cover!(true, "END");
 }
 
-// @obligation id=mpsc.producer.batch.Sender.send_batch props=C01,C02,C03 kind=hist tier=thorough bound="bounded(1) with one-slot stub chunks; input [a,b,c] any u8; claim_run/resolve_run replaced by their contracts (every (t,valid,m) with valid<=m<=remaining, forced progress after 3 claims); wait_for_window nondeterministic"
+// @obligation id=mpsc.producer.batch.Sender.send_batch props=C01,C02,C03 kind=hist tier=probe bound="bounded(1) with one-slot stub chunks; input [a,b,c] any u8; claim_run/resolve_run replaced by their contracts (every (t,valid,m) with valid<=m<=remaining, forced progress after 3 claims); wait_for_window nondeterministic"
 #[kani::proof]
 #[kani::stub(std::thread::current::current, crate::verif_k_stubs::stub_thread_current)]
 #[kani::stub(parking_lot::RawMutex::lock_slow, crate::verif_k_stubs::stub_lock_slow)]
@@ -160,7 +160,7 @@ fn step_async_batch(which: u8) {
 #[kani::unwind(10)]
 fn ob_mpsc_producer_batch_sender_send_batch() { step_sync_batch(0); }
 
-// @obligation id=mpsc.producer.batch.Sender.send_batch_mut props=C01,C02,C03 kind=hist tier=thorough bound="bounded(1) with one-slot stub chunks; input [a,b,c] any u8; claim_run/resolve_run replaced by their contracts (every (t,valid,m) with valid<=m<=remaining, forced progress after 3 claims); wait_for_window nondeterministic"
+// @obligation id=mpsc.producer.batch.Sender.send_batch_mut props=C01,C02,C03 kind=hist tier=probe bound="bounded(1) with one-slot stub chunks; input [a,b,c] any u8; claim_run/resolve_run replaced by their contracts (every (t,valid,m) with valid<=m<=remaining, forced progress after 3 claims); wait_for_window nondeterministic"
 #[kani::proof]
 #[kani::stub(std::thread::current::current, crate::verif_k_stubs::stub_thread_current)]
 #[kani::stub(parking_lot::RawMutex::lock_slow, crate::verif_k_stubs::stub_lock_slow)]
@@ -176,7 +176,7 @@ fn ob_mpsc_producer_batch_sender_send_batch() { step_sync_batch(0); }
 #[kani::unwind(10)]
 fn ob_mpsc_producer_batch_sender_send_batch_mut() { step_sync_batch(1); }
 
-// @obligation id=mpsc.producer.batch.Sender.try_send_batch props=C01,C02,C03 kind=hist tier=thorough bound="bounded(1) with one-slot stub chunks; input [a,b,c] any u8; claim_run/resolve_run replaced by their contracts (every (t,valid,m) with valid<=m<=remaining, forced progress after 3 claims); wait_for_window nondeterministic"
+// @obligation id=mpsc.producer.batch.Sender.try_send_batch props=C01,C02,C03 kind=hist tier=probe bound="bounded(1) with one-slot stub chunks; input [a,b,c] any u8; claim_run/resolve_run replaced by their contracts (every (t,valid,m) with valid<=m<=remaining, forced progress after 3 claims); wait_for_window nondeterministic"
 #[kani::proof]
 #[kani::stub(std::thread::current::current, crate::verif_k_stubs::stub_thread_current)]
 #[kani::stub(parking_lot::RawMutex::lock_slow, crate::verif_k_stubs::stub_lock_slow)]
@@ -192,7 +192,7 @@ fn ob_mpsc_producer_batch_sender_send_batch_mut() { step_sync_batch(1); }
 #[kani::unwind(10)]
 fn ob_mpsc_producer_batch_sender_try_send_batch() { step_sync_batch(2); }
 
-// @obligation id=mpsc.producer.batch.Sender.try_send_batch_mut props=C01,C02,C03 kind=hist tier=thorough bound="bounded(1) with one-slot stub chunks; input [a,b,c] any u8; claim_run/resolve_run replaced by their contracts (every (t,valid,m) with valid<=m<=remaining, forced progress after 3 claims); wait_for_window nondeterministic"
+// @obligation id=mpsc.producer.batch.Sender.try_send_batch_mut props=C01,C02,C03 kind=hist tier=probe bound="bounded(1) with one-slot stub chunks; input [a,b,c] any u8; claim_run/resolve_run replaced by their contracts (every (t,valid,m) with valid<=m<=remaining, forced progress after 3 claims); wait_for_window nondeterministic"
 #[kani::proof]
 #[kani::stub(std::thread::current::current, crate::verif_k_stubs::stub_thread_current)]
 #[kani::stub(parking_lot::RawMutex::lock_slow, crate::verif_k_stubs::stub_lock_slow)]
@@ -208,7 +208,7 @@ fn ob_mpsc_producer_batch_sender_try_send_batch() { step_sync_batch(2); }
 #[kani::unwind(10)]
 fn ob_mpsc_producer_batch_sender_try_send_batch_mut() { step_sync_batch(3); }
 
-// @obligation id=mpsc.producer.batch.AsyncSender.send_batch props=C01,C02,C03,C06 kind=hist tier=thorough bound="bounded(1) with one-slot stub chunks; input [a,b,c] any u8; claim_run/resolve_run replaced by their contracts (every (t,valid,m) with valid<=m<=remaining, forced progress after 3 claims); wait_for_window nondeterministic; future polled up to twice, then dropped"
+// @obligation id=mpsc.producer.batch.AsyncSender.send_batch props=C01,C02,C03,C06 kind=hist tier=probe bound="bounded(1) with one-slot stub chunks; input [a,b,c] any u8; claim_run/resolve_run replaced by their contracts (every (t,valid,m) with valid<=m<=remaining, forced progress after 3 claims); wait_for_window nondeterministic; future polled up to twice, then dropped"
 #[kani::proof]
 #[kani::stub(std::thread::current::current, crate::verif_k_stubs::stub_thread_current)]
 #[kani::stub(parking_lot::RawMutex::lock_slow, crate::verif_k_stubs::stub_lock_slow)]
@@ -224,7 +224,7 @@ fn ob_mpsc_producer_batch_sender_try_send_batch_mut() { step_sync_batch(3); }
 #[kani::unwind(10)]
 fn ob_mpsc_producer_batch_async_sender_send_batch() { step_async_batch(0); }
 
-// @obligation id=mpsc.producer.batch.AsyncSender.send_batch_mut props=C01,C02,C03,C06 kind=hist tier=thorough bound="bounded(1) with one-slot stub chunks; input [a,b,c] any u8; claim_run/resolve_run replaced by their contracts (every (t,valid,m) with valid<=m<=remaining, forced progress after 3 claims); wait_for_window nondeterministic; future polled up to twice, then dropped"
+// @obligation id=mpsc.producer.batch.AsyncSender.send_batch_mut props=C01,C02,C03,C06 kind=hist tier=probe bound="bounded(1) with one-slot stub chunks; input [a,b,c] any u8; claim_run/resolve_run replaced by their contracts (every (t,valid,m) with valid<=m<=remaining, forced progress after 3 claims); wait_for_window nondeterministic; future polled up to twice, then dropped"
 #[kani::proof]
 #[kani::stub(std::thread::current::current, crate::verif_k_stubs::stub_thread_current)]
 #[kani::stub(parking_lot::RawMutex::lock_slow, crate::verif_k_stubs::stub_lock_slow)]
